@@ -187,10 +187,15 @@ def check_unified_group(grp, ms, ps, dist, counters):
         if not ok:
             return ('structure', 'row text mismatch', t, info.code)
         (mcs if k == '-' else pcs).append(cells)
-    # (2) lines without partner carry no emphasis; identical pairs carry none
-    for cells, t in list(zip(mcs, ms)) + list(zip(pcs, ps)):
-        if not paired(cells) and has_emph(cells):
-            return ('emph-on-unpaired-line', 'a line without partner carries emphasis', t, cells)
+    # (2) the unchanged line that closes the sub-hunk carries neither emphasis nor a pairing style
+    # (that lines without partner carry no emphasis is observable in the side-by-side view only, where pairing shows
+    # as row sharing: check_sbs_pairing)
+    ctx_cells = cell_classes(grp[-1])
+    if ''.join(ch for ch, _ in ctx_cells).strip() != 'ZZctxZZ':
+        return ('structure', 'context row text mismatch', 'ZZctxZZ', grp[-1].code)
+    if any(cl != 'plain' for ch, cl in ctx_cells if ch != ' ') or grp[-1].code_kinds not in (set(), {' '}):
+        return ('emph-on-unchanged-line', 'an unchanged line carries an emphasis / pairing style', 'plain', ctx_cells)
+    counters['context_rows_checked'] = counters.get('context_rows_checked', 0) + 1
     nm = sum(1 for c in mcs if paired(c))
     np_ = sum(1 for c in pcs if paired(c))
     # a line without visible characters shows no pairing style (no cells, or whitespace-error cells only):
